@@ -59,7 +59,7 @@ def workloads(root):
     W['init-only'] = (0, ['init A M1 0'])
     W['init-flags'] = (0, ['init A M1 %d' % (CFGF['COMMENTS'] | CFGF['NOCASE'] | CFGF['IGNORE_UNKNOWN'])])
     W['parse-rich'] = (CFGF['COMMENTS'], ['init A M1 %d' % CFGF['COMMENTS'], 'parse_buf A ' + E(TEXT)])
-    W['parse-twice'] = (0, ['init A M1 0', 'parse_buf A ' + E(TEXT), 'parse_buf A ' + E(TEXT)])
+    W['parse-twice'] = (0, ['init A M1 0', 'addpath A ' + E(r + '/sp'), 'parse_buf A ' + E(TEXT), 'parse_buf A ' + E(TEXT)])
     W['parse-fp-ignore'] = (CFGF['IGNORE_UNKNOWN'], ['init A M1 %d' % CFGF['IGNORE_UNKNOWN'], 'parse_fp A ' + E(b'zz = 1 u { a = {1,2} } ' + TEXT)])
     W['parse-error'] = (0, ['init A M1 0', 'parse_buf A ' + E(b'il = {1, 2 sec { in t { z = {a} ] }')])
     W['setters'] = (0, ['init A M1 0', 'setint A %s 7' % E('i'), 'setint A %s 7 3' % E('il'), 'setfloat A %s 2.5' % E('f'), 'setfloat A %s 2.5 1' % E('fl'),
@@ -76,8 +76,8 @@ def workloads(root):
     W['annotate-print'] = (CFGF['COMMENTS'], ['init A M1 %d' % CFGF['COMMENTS'], 'parse_buf A ' + E(TEXT), 'setcomment A %s %s' % (E('i'), E('c1')),
                                              'setcomment A %s %s' % (E('i'), E('c2')), 'osetcomment A/sl ' + E('c3'), 'setcomment A %s %s' % (E('sec|x'), E('c4')),
                                              'print A', 'print A 2', 'oprint A/sl', 'oprint A/mt 1', 'init B M1 %d' % CFGF['COMMENTS'], 'roundtrip A B'])
-    W['sections'] = (0, ['init A M1 0', 'addtsec A %s %s' % (E('mt'), E('a')), 'addtsec A %s %s' % (E('mt'), E('b c')), 'addtsec A %s %s' % (E('mt'), E('a')),
-                         'addtsec A %s %s' % (E('sec|in'), E('t')), 'setint A %s 4' % E("mt='b c'|x"), 'rmtsec A %s %s' % (E('mt'), E('a')),
+    W['sections'] = (0, ['init A M1 0', 'addpath A ' + E(r + '/sp'), 'addtsec A %s %s' % (E('mt'), E('a')),      # a search path: sections borrow the pointer, a half-built one must not free the list 'addtsec A %s %s' % (E('mt'), E('b c')), 'addtsec A %s %s' % (E('mt'), E('a')),
+                         'addtsec A %s %s' % (E('sec|in'), E('t')), 'addtsec A %s %s' % (E('sec|in'), E('t')), 'setint A %s 4' % E("mt='b c'|x"), 'rmtsec A %s %s' % (E('mt'), E('a')),
                          'addtsec A %s %s' % (E('mt'), E('d')), 'rmnsec A %s 0' % E('mt'), 'rmsec A ' + E('mt=d'), 'parse_buf A ' + E(b'm { } m { } m { }'),
                          'ormnsec A/m 1', 'addtsec A %s %s' % (E('mt'), E('e')), 'ormtsec A/mt ' + E('e'), 'rmsec A ' + E('m=1')])
     W['lookups'] = (0, ['init A M1 0', 'parse_buf A ' + E(TEXT), 'getopt A ' + E('sec|in=t2|z'), 'getopt A ' + E("mt='b c'|s"), 'getsec A ' + E("sec|in='t 1'"),
